@@ -53,9 +53,8 @@ func (e *Eff) setDyn(on bool) {
 	if !on {
 		return
 	}
-	if e.Dep == nil || e.Dep.Extensions == nil {
-		e.Ext.DynamicBlocks = true
-	}
+	// (extensions a dependent body brings replace the static ones, but dynamic blocks stay enabled)
+	e.Ext.DynamicBlocks = true
 	if e.Sel == Resolved || e.Sel == Partial {
 		if e.Dep != nil {
 			for n := range e.Dep.Blocks {
